@@ -53,6 +53,10 @@ CHECKS["C14"] = (SEM, "every statement CONTEXT x BINDERS x 1..2(3)-subset of a 3
 CHECKS["C15"] = (SEM, "every program HELPER x aggregate function x USER x declaration is run through optimize(inline only); all "
                  "instances, all answer sets; set equality of (answer set on IN u OUT, costs)", "8/C15")
 
+CHECKS["C09"] = (SEM, "every program PRODUCER x MID x CONSUMER is run through optimize(unused only) under four OUT "
+                 "declarations; all instances, all answer sets; set equality of (answer set on IN u OUT or what #show "
+                 "displays, costs)", "8/C09")
+
 ALL = [f"C{i:02d}" for i in range(1, 21)]
 
 
